@@ -118,6 +118,11 @@ def drive_and_validate(ctx, exe, executions, spec_dir, module, cfg, *, label="ru
 
     accepted = 0
     for kind, bi, idx, info, aux in results:
+        if len(ctx.violations) >= 3 and kind in ("died", "rejected"):
+            if kind == "rejected":
+                accepted += idx
+            ctx.extra["further_rejections_not_confirmed"] = ctx.extra.get("further_rejections_not_confirmed", 0) + 1
+            continue
         b = batches[bi]
         if kind == "ok":
             accepted += idx
